@@ -69,7 +69,7 @@ class Parser:
         self.pos = 0
         # An empty or comment-only grammar has no tokens (and no rules).
         grammar = tokens[-1].grammar if tokens else ""
-        self.eof = Token(TokenKind.EOI, "", -1, grammar)
+        self.eof = Token(TokenKind.EOI, "", len(grammar), grammar)
 
     def current(self) -> Token:
         try:
